@@ -59,6 +59,7 @@ func (m *CPU) Context() *risc.Context {
 func (m *CPU) Run(app risc.Application) (int, error) {
 	cycle := 0
 	for {
+		m.ctx.VerifTick()
 		cycle++
 		if m.ctx.Debug {
 			fmt.Printf("%d\n", int32(cycle))
@@ -90,6 +91,7 @@ func (m *CPU) Run(app risc.Application) (int, error) {
 				fmt.Printf("\tFlush to %d\n", pc/4)
 			}
 			for !m.writeUnit.isEmpty() || !m.writeBus.IsEmpty() {
+				m.ctx.VerifTick()
 				cycle++
 				m.writeUnit.cycle(m.ctx, m.writeBus)
 			}
